@@ -1,0 +1,171 @@
+//go:build verif
+
+package internal
+
+// Contracts for sketch.go and next2Power (property C17).
+
+func sp_pow2(x uint) bool { return x != 0 && x&(x-1) == 0 }
+
+// value of 4-bit counter k (0..15) of word v
+func sp_nib(v uint64, k uint) uint64 { return (v >> (k << 2)) & 0xF }
+
+func sp_sat15(x uint64) uint64 {
+	if x > 15 {
+		return 15
+	}
+	return x
+}
+
+func sp_rehash(h uint64) uint64 { return (h * 0x94d049bb133111eb) ^ ((h * 0x94d049bb133111eb) >> 31) }
+
+// word index and counter index of the o-th counter (o < 4) of hash h
+func sp_cidx(s *CountMinSketch, h uint64, o uint64) uint64 {
+	return ((h & uint64(s.BlockMask)) << 3) + ((sp_rehash(h) >> (o << 3)) & 1) + (o << 1)
+}
+func sp_coff(h uint64, o uint64) uint { return uint(((sp_rehash(h) >> (o << 3)) >> 1) & 0xf) }
+
+// well-formed sketch: power-of-two table of 16..2^40 words, derived fields consistent
+func sp_wfSketch(s *CountMinSketch) bool {
+	return sp_pow2(uint(len(s.Table))) && len(s.Table) >= 16 && len(s.Table) <= 1<<40 &&
+		s.BlockMask == uint((len(s.Table)>>3)-1) && s.SampleSize == 10*uint(len(s.Table))
+}
+
+func spec_next2Power(x uint) (r uint) {
+	requires("range", x >= 1 && x <= 1<<62)
+	ensures("pow2", sp_pow2(r))
+	ensures("ge", r >= x)
+	ensures("tight", r>>1 < x)
+	return
+}
+
+func spec_rehash(h uint64) (r uint64) {
+	ensures("def", r == sp_rehash(h))
+	return
+}
+
+func spec_min(a, b uint) (r uint) {
+	ensures("def", r == ifelse(a < b, a, b))
+	return
+}
+
+func (s *CountMinSketch) spec_indexOf(counterHash uint64, block uint64, offset uint8) (index uint, off uint) {
+	requires("offset", offset < 4)
+	ensures("index", uint64(index) == block+((counterHash>>(uint64(offset)<<3))&1)+(uint64(offset)<<1))
+	ensures("off", off == uint(((counterHash>>(uint64(offset)<<3))>>1)&0xf))
+	return
+}
+
+func (s *CountMinSketch) spec_inc(index uint, offset uint) (added bool) {
+	requires("index", index < uint(len(s.Table)))
+	requires("offset", offset < 16)
+	ensures("target", sp_nib(s.Table[index], offset) == sp_sat15(old(sp_nib(s.Table[index], offset))+1))
+	ensures("others_in_word", all(func(k uint) bool {
+		return imp(k < 16 && k != offset, sp_nib(s.Table[index], k) == old(sp_nib(s.Table[index], k)))
+	}))
+	ensures("other_words", all(func(i uint) bool {
+		return imp(i != index, s.Table[i] == old(s.Table[i]))
+	}))
+	ensures("added", added == (old(sp_nib(s.Table[index], offset)) < 15))
+	ensures("shape", len(s.Table) == old(len(s.Table)))
+	return
+}
+
+func (s *CountMinSketch) spec_count(h uint64, block uint64, offset uint8) (c uint) {
+	requires("offset", offset < 4)
+	requires("inrange", block+((h>>(uint64(offset)<<3))&1)+(uint64(offset)<<1) < uint64(len(s.Table)))
+	ensures("def", uint64(c) == sp_nib(s.Table[block+((h>>(uint64(offset)<<3))&1)+(uint64(offset)<<1)], uint(((h>>(uint64(offset)<<3))>>1)&0xf)))
+	ensures("le15", c <= 15)
+	return
+}
+
+func (s *CountMinSketch) spec_reset() {
+	requires("wf", sp_wfSketch(s))
+	requires("due", s.Additions == s.SampleSize)
+	ensures("halves", all(func(i uint) bool {
+		return all(func(k uint) bool {
+			return imp(i < uint(len(s.Table)) && k < 16, sp_nib(s.Table[i], k) == old(sp_nib(s.Table[i], k))>>1)
+		})
+	}))
+	ensures("additions_upper", s.Additions <= s.SampleSize>>1)
+	ensures("additions_lower", s.Additions >= (s.SampleSize-4*uint(len(s.Table)))>>1)
+	ensures("wf", sp_wfSketch(s))
+}
+
+func (s *CountMinSketch) spec_reset_loop1(i int, count int) {
+	invariant("shape", len(s.Table) == old(len(s.Table)) && s.Additions == old(s.Additions) && s.SampleSize == old(s.SampleSize) && s.BlockMask == old(s.BlockMask))
+	invariant("count", count >= 0 && count <= 16*i)
+	invariant("done", all(func(j uint) bool {
+		return imp(j < uint(i), s.Table[j] == (old(s.Table[j])>>1)&resetMask)
+	}))
+	invariant("todo", all(func(j uint) bool {
+		return imp(j >= uint(i), s.Table[j] == old(s.Table[j]))
+	}))
+}
+
+func (s *CountMinSketch) spec_Add(h uint64) (reset bool) {
+	requires("wf", sp_wfSketch(s))
+	requires("additions", s.Additions < s.SampleSize)
+	ensures("wf", sp_wfSketch(s) && len(s.Table) == old(len(s.Table)))
+	// the equality test Additions == SampleSize can never be stepped over
+	ensures("additions", s.Additions < s.SampleSize)
+	// without a reset: the key's own four counters are each incremented (saturating at 15) ...
+	ensures("own", imp(!reset, all(func(o uint64) bool {
+		return imp(o < 4, sp_nib(s.Table[sp_cidx(s, h, o)], sp_coff(h, o)) == sp_sat15(old(sp_nib(s.Table[sp_cidx(s, h, o)], sp_coff(h, o)))+1))
+	})))
+	// ... and no counter anywhere decreases
+	ensures("monotone", imp(!reset, all(func(i uint) bool {
+		return all(func(k uint) bool {
+			return imp(i < uint(len(s.Table)) && k < 16, sp_nib(s.Table[i], k) >= old(sp_nib(s.Table[i], k)))
+		})
+	})))
+	return
+}
+
+func (s *CountMinSketch) spec_Addn(h uint64, n int) {
+	requires("wf", sp_wfSketch(s))
+	ensures("wf", sp_wfSketch(s) && len(s.Table) == old(len(s.Table)))
+	ensures("monotone", all(func(i uint) bool {
+		return all(func(k uint) bool {
+			return imp(i < uint(len(s.Table)) && k < 16, sp_nib(s.Table[i], k) >= old(sp_nib(s.Table[i], k)))
+		})
+	}))
+}
+
+func (s *CountMinSketch) spec_Addn_loop1(i int, n int, index0, offset0, index1, offset1, index2, offset2, index3, offset3 uint) {
+	invariant("shape", len(s.Table) == old(len(s.Table)) && s.SampleSize == old(s.SampleSize) && s.BlockMask == old(s.BlockMask))
+	invariant("i", i >= 0)
+	invariant("monotone", all(func(j uint) bool {
+		return all(func(k uint) bool {
+			return imp(j < uint(len(s.Table)) && k < 16, sp_nib(s.Table[j], k) >= old(sp_nib(s.Table[j], k)))
+		})
+	}))
+	decreases(n - i)
+}
+
+func (s *CountMinSketch) spec_Estimate(h uint64) (m uint) {
+	requires("wf", sp_wfSketch(s))
+	// the estimate is the minimum of the key's four counters
+	ensures("lower", all(func(o uint64) bool {
+		return imp(o < 4, uint64(m) <= sp_nib(s.Table[sp_cidx(s, h, o)], sp_coff(h, o)))
+	}))
+	ensures("attained", ex(func(o uint64) bool {
+		return o < 4 && uint64(m) == sp_nib(s.Table[sp_cidx(s, h, o)], sp_coff(h, o))
+	}))
+	ensures("cap", m <= 15)
+	return
+}
+
+func (s *CountMinSketch) spec_EnsureCapacity(size uint) {
+	requires("size", size <= 1<<40)
+	requires("wf_or_empty", len(s.Table) == 0 || sp_wfSketch(s))
+	ensures("never_shrinks", len(s.Table) >= old(len(s.Table)))
+	ensures("fits", uint(len(s.Table)) >= size)
+	ensures("wf", imp(size > 0 || old(len(s.Table)) > 0, sp_wfSketch(s)))
+	ensures("unchanged_if_fits", imp(old(len(s.Table)) >= int(size), len(s.Table) == old(len(s.Table)) && s.Additions == old(s.Additions)))
+	ensures("additions", imp(old(len(s.Table)) < int(size), s.Additions == 0))
+}
+
+func spec_NewCountMinSketch() (r *CountMinSketch) {
+	ensures("wf", r != nil && sp_wfSketch(r) && r.Additions == 0 && len(r.Table) >= 64)
+	return
+}
